@@ -10,6 +10,7 @@ import (
 	"fmt"
 	"net/http"
 	"net/url"
+	"os"
 	"strings"
 	"time"
 
@@ -99,8 +100,20 @@ func muxerPlaylists(r *rng.R, variant gohlslib.MuxerVariant, withAudio bool) (ou
 	gop := 10 + r.Intn(40)
 	nframes := gop*(segCount+2+r.Intn(4)) + r.Intn(gop)
 	apts := int64(0)
+	// the request's query string is carried into the URIs the playlists list (C16): queries a net/http
+	// server accepts (no control characters, no spaces), some with characters that need care in a
+	// quoted attribute value
+	queries := []string{"", "", "token=abc&x=1", "a=\"b", "k=v,w&l=1", "q=a%22b", "x='y'&z=<1>", "p=a=b&&r"}
+	query := queries[r.Intn(len(queries))]
+	if os.Getenv("VERIF_FORCE_QUERY") != "" {
+		query = os.Getenv("VERIF_FORCE_QUERY")
+	}
 	collect := func(tag string) {
-		st, idx := muxFetch(m, "index.m3u8")
+		idxPath := "index.m3u8"
+		if query != "" {
+			idxPath += "?" + query
+		}
+		st, idx := muxFetch(m, idxPath)
 		if st != 200 {
 			return
 		}
@@ -120,6 +133,9 @@ func muxerPlaylists(r *rng.R, variant gohlslib.MuxerVariant, withAudio bool) (ou
 			for _, q := range []string{"", "?_HLS_skip=YES"} {
 				if q != "" && variant != gohlslib.MuxerVariantLowLatency {
 					continue
+				}
+				if q != "" && strings.Contains(uri, "?") {
+					q = "&" + q[1:]
 				}
 				if st, b := muxFetch(m, uri+q); st == 200 {
 					out[tag+":"+uri+q] = b
@@ -151,6 +167,11 @@ func muxerPlaylists(r *rng.R, variant gohlslib.MuxerVariant, withAudio bool) (ou
 		}
 	}
 	collect("end")
+	// at the end, every query once (the random pick above covers the histories)
+	for qi, q := range queries[2:] {
+		query = q
+		collect(fmt.Sprintf("endq%d", qi))
+	}
 	return out, nil
 }
 
